@@ -617,3 +617,27 @@ stage("tv_pow3", extra=("param",), params=lambda W: {"n": W.pick("n", [3, 2,
 stage("tv_pow_inverse", extra=("param",))(
   (lambda P, i, p: ((1 - S(P, i[1]) * .1 * P.lf.z ** -1) ** -2)(i[0]),
    lambda i, p: M.m_lockstep(i)))
+
+
+class LazyList(list):
+  """ A MutableSequence whose iteration is the simulator-owned reader: a
+  stage that copies its (list) argument when it is built reads it. """
+
+  def __init__(self, reader):
+    list.__init__(self)
+    self._reader = reader
+
+  def __iter__(self):
+    return self._reader
+
+
+def mixer_listlike_real(P, i, p):
+  mix = P.ls.Streamix(keep=p["keep"], zero=0)
+  for d, src in zip(p["deltas"], i):
+    mix.add(d, LazyList(src))
+  return mix
+
+
+stage("mixer_listlike", extra="var-num", params=mixer_params, weight=2)(
+  (mixer_listlike_real, lambda i, p: M.m_mixer(i, mixer_starts(p),
+                                               p["keep"])))
